@@ -77,7 +77,7 @@ CLAIMS = [
      "ref": "DESIGN.md section 6 (C11)"},
     {"id": "C08",
      "technique": "lock programs recorded from the real code (hooked parking_lot) -> TLC explores all interleavings under parking_lot semantics (LockSched.tla) -> deadlock witnesses replayed on the real locks, confirmed by parking_lot's deadlock detector",
-     "text": "Every catalogue operation (40 API calls, 3-5 start states) is run on a real engine through a vendored parking_lot whose raw lock methods "
+     "text": "Every catalogue operation (49 API calls, 3-5 start states) is run on a real engine through a vendored parking_lot whose raw lock methods "
              "report each acquire / try / release; LockSched.tla (writer-preferring RwLock, Mutex, upgradable read, try-lock semantics transcribed from "
              "parking_lot 0.12.5) is instantiated with these programs and TLC explores every interleaving of every pair of operations sharing a lock "
              "(selected triples in thorough); each deadlock state found is replayed with real threads under a schedule gate and counts only if "
